@@ -243,6 +243,10 @@ func (s *Sched) spawn(parent *Thread, f func(), tag string) *Thread {
 		t.done = true
 		t.parked = false
 		s.mu.Unlock()
+		if parent != nil {
+			// a thread that is still spawning work is ended here (loops that only spawn never reach another point)
+			runtime.Goexit()
+		}
 		return t
 	}
 	s.signal()
